@@ -54,7 +54,7 @@ fn gen_case(id: u64, r: &mut Rng, out: &mut Out) -> (String, Vec<String>) {
                         ops.push(format!("pbkdf i={}", k + 1));
                         ops.push(format!("pake1 i={} pw={}", k + 1, if r.chance(1, 3) { bad_pw } else { good_pw }));
                         ops.push(format!("pake3 i={} noack=1", k + 1));
-                        ops.push(format!("tick ms={}", r.range(6000, 9000)));
+                        ops.push(format!("tick ms={}", r.range(7400, 9000)));
                     }
                     handshake(&mut ops, 9, if r.chance(1, 2) { bad_pw } else { good_pw });
                     out.stat("final_ack_lost", 1);
